@@ -37,6 +37,9 @@ type concRun struct {
 	keys    []string
 	db      *originium.DB
 	panics  []string
+
+	markChecks    atomic.Int64
+	markViolation string
 }
 
 func (cr *concRun) newValue(r *rand.Rand) (int32, []byte) {
@@ -61,6 +64,22 @@ func (cr *concRun) idOf(b []byte, ok bool) int32 {
 	return id
 }
 
+// checkReadMark is an online invariant monitor: while a transaction is open the read watermark
+// (which is also the version discard watermark and the horizon of the committed-list cleanup) must
+// not be above its snapshot timestamp. Begin registers the reader under the oracle lock before any
+// later mark can be queued, so DoneUntil <= readTs holds from the moment Begin returns until the
+// transaction ends; the mark "standing there already" (equality) is fine.
+func (cr *concRun) checkReadMark(tx *originium.Txn, rec *hTxn, when string) {
+	cr.markChecks.Add(1)
+	if mark, ts := cr.db.VerifReadMark(), tx.VerifReadTs(); mark > ts {
+		cr.mu.Lock()
+		if cr.markViolation == "" {
+			cr.markViolation = fmt.Sprintf("T%d (client %d): %s the read watermark is %d although the transaction, still open, reads at timestamp %d: versions it needs may be discarded and conflict records it needs may be cleaned", rec.ID, rec.Client, when, mark, ts)
+		}
+		cr.mu.Unlock()
+	}
+}
+
 // one transaction of a client; shape selects the anomaly pattern
 func (cr *concRun) oneTxn(g int, r *rand.Rand, shape string) {
 	nk := len(cr.keys)
@@ -80,11 +99,13 @@ func (cr *concRun) oneTxn(g int, r *rand.Rand, shape string) {
 	}
 	var tx *originium.Txn
 	rec.BeginCall, rec.BeginRet = call(func() { tx = cr.db.Begin(update) })
+	cr.checkReadMark(tx, rec, "after Begin returned")
 	buf := map[int]int32{}
 	get := func(k int) int32 {
 		var got []byte
 		var ok bool
 		at, _ := call(func() { got, ok = tx.Get(cr.keys[k]) })
+		cr.checkReadMark(tx, rec, "after a Get")
 		id := cr.idOf(got, ok)
 		_, own := buf[k]
 		rec.Reads = append(rec.Reads, hRead{K: k, V: id, Own: own && update, At: at})
@@ -209,6 +230,7 @@ func (cr *concRun) closureTxn(g int, r *rand.Rand, rec *hTxn) {
 	buf := map[int]int32{}
 	fn := func(tx *originium.Txn) error {
 		rec.BeginRet = cr.clock.Add(1)
+		cr.checkReadMark(tx, rec, "at the start of a View/Update closure")
 		for i := 0; i < 1+r.Intn(4); i++ {
 			k := r.Intn(nk)
 			if rec.Update && r.Intn(2) == 0 {
@@ -266,6 +288,9 @@ type concOutcome struct {
 	panicked    string
 	overlapping int
 	crowd       bool // >40 concurrent clients: judged by the definite rules only
+
+	markViolation string
+	markChecks    int64
 }
 
 // runConcWorkload executes the workload and returns the recorded history.
@@ -349,6 +374,8 @@ func runConcWorkload(c core.Case, res *core.Result) *concOutcome {
 			out.panicked = "second phase (audit, Close, Open, audit, Close): " + p
 		}
 	}
+	out.markViolation = cr.markViolation
+	out.markChecks = cr.markChecks.Load()
 	out.txns = cr.txns
 	sort.Slice(out.txns, func(i, j int) bool { return out.txns[i].BeginCall < out.txns[j].BeginCall })
 	out.obs = eng.Diff(before, eng.H.Snapshot())
@@ -381,6 +408,10 @@ func judgeConc(out *concOutcome, res *core.Result, owner string) {
 		res.Violate(owner, owner+"/conc/panic", "engine panicked during the concurrent workload: %s", out.panicked)
 		return
 	}
+	if out.markViolation != "" {
+		res.Violate("C05", "C05/conc/read-watermark-above-open-snapshot", "%s\nconfig: %s keys %q", out.markViolation, gen.CfgString(out.cfg), out.keys)
+	}
+	res.AddObs("read_watermark_invariant_checks", out.markChecks)
 	idx := map[int]*hTxn{}
 	for _, t := range out.txns {
 		idx[t.ID] = t
